@@ -1,3 +1,4 @@
+import Rawr.Proofs.RustImpAgree_Eval
 import Rawr.Proofs.RustSessionAgree_Lines
 import Rawr.Proofs.RustTextAgree_Uci
 /-!
